@@ -15,7 +15,7 @@ pub const LOG: usize = 24;
 pub const NFD: usize = 32;
 
 pub const CONTRACT: &[&str] = &[
-    "a failing call returns -errno with errno in 1..=4095 and has no other effect",
+    "a failing call returns -errno with errno in 1..=4095 and has no other effect (except close, which releases the descriptor even when it reports an error, as Linux does)",
     "fault injection: any subset of call indices (bit mask over the first 32 calls) may fail, each with its own symbolic errno",
     "descriptor-creating calls return the lowest free descriptor; close(fd) frees it; a close of a descriptor that is not open returns -EBADF and is recorded",
     "clock_gettime(CLOCK_MONOTONIC) never decreases; tv_nsec in 0..10^9",
@@ -75,6 +75,8 @@ pub struct K {
     pub sleep_done: bool,
     pub sleep_max_intr: u32,
     // --- process
+    pub forked: bool,
+    pub in_child: bool,
     pub exited: bool,
     pub exit_code: usize,
 }
@@ -110,6 +112,8 @@ pub static mut KS: K = K {
     sleep_bad_request: false,
     sleep_done: false,
     sleep_max_intr: 3,
+    forked: false,
+    in_child: false,
     exited: false,
     exit_code: 0,
 };
@@ -119,6 +123,7 @@ pub fn ks() -> &'static mut K {
     unsafe { &mut *core::ptr::addr_of_mut!(KS) }
 }
 
+pub const AT_FDCWD: usize = (-100isize) as usize;
 pub const EBADF: usize = 9;
 pub const EINTR: usize = 4;
 pub const EMFILE: usize = 24;
@@ -144,6 +149,26 @@ impl K {
         let at: u32 = kani::any();
         kani::assume(at <= 32);
         self.fail_mask = if at == 32 { 0 } else { 1u32 << at };
+    }
+    /// Model mode, at most two failing calls.
+    pub fn model_with_two_faults(&mut self) {
+        self.model = true;
+        let a: u32 = kani::any();
+        let b: u32 = kani::any();
+        kani::assume(a <= 32 && b <= 32);
+        let ma = if a == 32 { 0 } else { 1u32 << a };
+        let mb = if b == 32 { 0 } else { 1u32 << b };
+        self.fail_mask = ma | mb;
+    }
+    /// Start observing an operation: everything open now is "foreign" to it.
+    pub fn begin_operation(&mut self) {
+        self.calls = 0;
+        self.n_failed = 0;
+        self.fd_initial = self.fd_open;
+        self.fd_born = 0;
+        self.bad_close = 0;
+        self.foreign_close = 0;
+        self.use_after_close = 0;
     }
     pub fn model_no_faults(&mut self) {
         self.model = true;
@@ -178,6 +203,9 @@ impl K {
         }
     }
     pub fn touch_fd(&mut self, fd: usize) {
+        if fd == AT_FDCWD {
+            return;
+        }
         if !self.fd_is_open(fd) {
             self.use_after_close += 1;
         }
@@ -222,6 +250,10 @@ pub unsafe fn kernel(n: usize, a: [usize; 6], _nargs: usize) -> usize {
     } else if idx < 32 && k.fail_mask & (1u32 << idx) != 0 && n != nr::EXIT && n != nr::EXIT_GROUP {
         failed = true;
         k.n_failed += 1;
+        if n == nr::CLOSE {
+            // Linux releases the descriptor even when close() reports an error (EINTR, EIO, ...)
+            let _ = k.close_fd(a[0]);
+        }
         let e: usize = if k.fail_errno != 0 {
             k.fail_errno
         } else {
@@ -332,6 +364,38 @@ unsafe fn model(k: &mut K, n: usize, a: &[usize; 6]) -> usize {
                 k.sleep_done = true;
                 0
             }
+        }
+        nr::PPOLL | nr::POLL | nr::EPOLL_PWAIT | nr::EPOLL_WAIT => {
+            // 0 = timed out, 1 = one descriptor ready
+            k.touch_fd(if n == nr::PPOLL || n == nr::POLL { *(a[0] as *const i32) as usize } else { a[0] });
+            let ready: bool = kani::any();
+            ready as usize
+        }
+        nr::READ | nr::WRITE | nr::GETDENTS64 => {
+            k.touch_fd(a[0]);
+            // any count up to the buffer length (short transfers); content of the buffer is not modelled here
+            let c: usize = kani::any();
+            kani::assume(c <= a[2]);
+            c
+        }
+        nr::COPY_FILE_RANGE => {
+            k.touch_fd(a[0]);
+            k.touch_fd(a[2]);
+            let c: usize = kani::any();
+            kani::assume(c <= a[4]);
+            c
+        }
+        nr::CONNECT | nr::BIND | nr::LISTEN | nr::FCNTL | nr::IOCTL | nr::EPOLL_CTL | nr::NEWFSTATAT | nr::FSTAT
+        | nr::LSEEK | nr::GETSOCKNAME | nr::SENDMSG | nr::RECVMSG => {
+            k.touch_fd(a[0]);
+            0
+        }
+        nr::FORK | nr::VFORK => {
+            // 0 = this path continues as the child, > 0 = the parent with the child's pid
+            let child: bool = kani::any();
+            k.forked = true;
+            k.in_child = child;
+            if child { 0 } else { 4242 }
         }
         nr::EXIT | nr::EXIT_GROUP => {
             k.exited = true;
